@@ -310,6 +310,9 @@ func execute(plan *Plan, tier string, seed int64, replayFile, only string) int {
 		if st.Kind == "bfs" {
 			stage, ints := runBFS(plan, st, si, tier, seed)
 			internal = append(internal, ints...)
+			for i := range stage.Violations {
+				stage.Violations[i].Replay = tagStage(stage.Violations[i].Replay, si)
+			}
 			desc := fmt.Sprintf("%s bfs depth<=%d params=%v: states=%d transitions=%d capped=%v %s", st.Scenario, st.Depth, st.Params, stage.States, stage.Transitions, stage.Capped, stage.CapReason)
 			stageNotes = append(stageNotes, desc)
 			fmt.Println("stage:", desc)
@@ -355,6 +358,9 @@ func execute(plan *Plan, tier string, seed int64, replayFile, only string) int {
 				internal = append(internal, fmt.Sprintf("%s shard %d: %s", st.Scenario, sh, wo.res.Internal))
 			}
 			stage.Merge(wo.res)
+		}
+		for i := range stage.Violations {
+			stage.Violations[i].Replay = tagStage(stage.Violations[i].Replay, si)
 		}
 		desc := fmt.Sprintf("%s bound=%d shards=%d: executions=%d transitions=%d capped=%v", st.Scenario, st.Bound, n, stage.Evaluations, stage.Transitions, stage.Capped)
 		stageNotes = append(stageNotes, desc)
@@ -463,6 +469,30 @@ func indent(s string) string {
 }
 
 // stageFor finds the stage of a scenario (for replays).
+func stageOf(plan *Plan, raw json.RawMessage) *Stage {
+	var x struct {
+		Scenario string `json:"scenario"`
+		Stage    *int   `json:"_stage"`
+	}
+	_ = json.Unmarshal(raw, &x)
+	if x.Stage != nil && *x.Stage >= 0 && *x.Stage < len(plan.Stages) && plan.Stages[*x.Stage].Scenario == x.Scenario {
+		return &plan.Stages[*x.Stage]
+	}
+	return stageFor(plan, x.Scenario)
+}
+
+// tagStage records the stage index inside a replay payload so that a replay runs with the
+// parameters of the stage that found it.
+func tagStage(raw json.RawMessage, si int) json.RawMessage {
+	var m map[string]any
+	if json.Unmarshal(raw, &m) != nil || m == nil {
+		return raw
+	}
+	m["_stage"] = si
+	b, _ := json.Marshal(m)
+	return b
+}
+
 func stageFor(plan *Plan, scenario string) *Stage {
 	for i := range plan.Stages {
 		if plan.Stages[i].Scenario == scenario {
@@ -483,7 +513,7 @@ func replayScenario(raw json.RawMessage) string {
 // confirm replays a violation in fresh worker processes; it must fail the same way each time.
 func confirm(plan *Plan, v vlib.Violation) (bool, string) {
 	sc := replayScenario(v.Replay)
-	st := stageFor(plan, sc)
+	st := stageOf(plan, v.Replay)
 	if st == nil {
 		return false, "no stage for scenario " + sc
 	}
@@ -553,7 +583,7 @@ func doReplay(plan *Plan, file string) int {
 		v.Replay = b
 	}
 	sc := replayScenario(v.Replay)
-	st := stageFor(plan, sc)
+	st := stageOf(plan, v.Replay)
 	if st == nil {
 		fmt.Fprintln(os.Stderr, "no stage for scenario", sc)
 		return 2
